@@ -14,7 +14,7 @@ use crate::{
     wire::{new_wire, Sock},
 };
 use serde::ser::{
-    Serialize, SerializeMap, SerializeSeq, SerializeStruct, SerializeStructVariant, SerializeTuple, SerializeTupleVariant,
+    Serialize, SerializeMap, SerializeSeq, SerializeStruct, SerializeStructVariant, SerializeTuple, SerializeTupleStruct, SerializeTupleVariant,
     Serializer,
 };
 use serde_json::{json, Value};
@@ -45,6 +45,8 @@ pub enum V {
     NewtypeVar(&'static str, Box<V>),
     TupleVar(&'static str, Vec<V>),
     StructVar(&'static str, Vec<(&'static str, V)>),
+    UnitStruct,
+    TupleStruct(Vec<V>),
 }
 
 const NAMES: [&str; 10] = ["Uv", "Kv", "Nv", "Tv", "Sv", "f", "g2", "h", "q\"t", "b\\s\tn\nl"];
@@ -125,6 +127,14 @@ impl Serialize for V {
                 }
                 m.end()
             }
+            V::UnitStruct => s.serialize_unit_struct("Us"),
+            V::TupleStruct(items) => {
+                let mut q = s.serialize_tuple_struct("Ts", items.len())?;
+                for i in items {
+                    q.serialize_field(i)?;
+                }
+                q.end()
+            }
             V::UnitVar(n) => s.serialize_unit_variant("En", 0, n),
             V::NewtypeVar(n, v) => s.serialize_newtype_variant("En", 1, n, &**v),
             V::TupleVar(n, items) => {
@@ -197,6 +207,8 @@ pub fn from_spec(v: &Value) -> V {
         "tuple" => V::Tuple(items(&v["items"])),
         "map" => V::Map(v["entries"].as_array().unwrap().iter().map(|e| (from_spec(&e[0]), from_spec(&e[1]))).collect()),
         "struct" => V::Struct(fields(&v["fields"])),
+        "unitstruct" => V::UnitStruct,
+        "tuplestruct" => V::TupleStruct(items(&v["items"])),
         "unitvar" => V::UnitVar(stat(v["name"].as_str().unwrap())),
         "newtypevar" => V::NewtypeVar(stat(v["name"].as_str().unwrap()), Box::new(from_spec(&v["v"]))),
         "tuplevar" => V::TupleVar(stat(v["name"].as_str().unwrap()), items(&v["items"])),
@@ -455,7 +467,7 @@ pub fn random_tree(r: &mut Rng, depth: usize) -> Value {
             4 | 5 => json!({"t":"str","s":s(r)}),
             6 => json!({"t":"char","s":[*r.pick(&toks)]}),
             7 => json!({"t":"unitvar","name":"Uv"}),
-            8 => json!({"t":"none"}),
+            8 => if r.chance(1, 2) { json!({"t":"none"}) } else { json!({"t":"unitstruct"}) },
             _ => json!({"t":"bytes","n":(0..r.below(4)).map(|_| r.below(256)).collect::<Vec<_>>()}),
         }
     };
@@ -478,13 +490,13 @@ pub fn random_tree(r: &mut Rng, depth: usize) -> Value {
                 _ => json!({"t":"newtype","v":{"t":"seq","items":[]}}),
             },
             9 => json!({"t":"bool","b":true}),
-            10 => json!({"t":"seq","items":[]}),
+            10 => if r.chance(1, 2) { json!({"t":"seq","items":[]}) } else { json!({"t":"unitstruct"}) },
             _ => json!({"t":"some","v":{"t":"str","s":s(r)}}),
         }
     };
     let fields = |r: &mut Rng| -> Vec<Value> { kids(r).into_iter().enumerate().map(|(i, v)| { let nm = ["f", "g2", "h", "q\"t", "b\\s\tn\nl"][(i + n) % 5]; json!([nm, v]) }).collect() };
     match r.below(9) {
-        0 => json!({"t":"seq","items":kids(r)}),
+        0 => if r.chance(1, 3) { json!({"t":"tuplestruct","items":kids(r)}) } else { json!({"t":"seq","items":kids(r)}) },
         1 => {
             let mut k = kids(r);
             if k.is_empty() {
